@@ -88,7 +88,7 @@ func walObs(s etcdRaft.Storage, maxIdx uint64) string {
 		}
 		for lo := lo0; lo <= l; lo++ {
 			for hi := lo + 1; hi <= l+1; hi++ {
-				for _, ms := range []uint64{0, 10, 1099511627776} {
+				for _, ms := range []uint64{0, 10, 30, 1099511627776} {
 					ents, err := s.Entries(lo, hi, ms)
 					fmt.Fprintf(&sb, " E%d,%d,%d=", lo, hi, ms)
 					for _, e := range ents {
@@ -115,6 +115,10 @@ func runWal(c *Ctx) {
 	maxSteps := c.ArgInt("steps", c.Pick(25, 45))
 	db, dbDir, closeDB := diskDB()
 	defer func() { closeDB() }()
+	walBigCompaction(c, db)
+	if c.Args["only"] == "bigcompaction" {
+		return
+	}
 
 	for seq := 0; seq < nSeq; seq++ {
 		r := rng.Fork()
@@ -179,7 +183,11 @@ func runWal(c *Ctx) {
 				n := 1 + r.Intn(4)
 				var ents []pb.Entry
 				for i := 0; i < n; i++ {
-					ents = append(ents, pb.Entry{Index: lo + uint64(i), Term: term, Data: []byte(strconv.Itoa(1 + r.Intn(99)))})
+					data := strconv.Itoa(1 + r.Intn(99))
+					if r.Intn(4) == 0 { // a large entry among small ones: a size-limited read must stop at it, not step over it
+						data = strings.Repeat("0", 40) + data
+					}
+					ents = append(ents, pb.Entry{Index: lo + uint64(i), Term: term, Data: []byte(data)})
 				}
 				if lo+uint64(n)-1 < last {
 					c.Nontrivial("shortening-overwrite")
@@ -297,4 +305,86 @@ func firstDiff(a, b string) string {
 		}
 	}
 	return "length"
+}
+
+// walBigCompaction: one compaction that has to remove more than ten thousand entries, then a second
+// store object over the same keys (what a restart sees: no caches). Compared with MemoryStorage on
+// the summary, on the terms around every thousand and around the snapshot index, and on the entries
+// after the snapshot. (The quadratic observation of the random sequences does not scale to this log;
+// the history is recorded as local lines and not sent to the model driver.)
+func walBigCompaction(c *Ctx, db *badger.DB) {
+	prop := c.Args["as"]
+	if prop == "" {
+		prop = "C06"
+	}
+	const total, batch = 12400, 400
+	c.Begin("corpus big-compaction")
+	defer c.End()
+	g := &walGroup{id: uuid.NewV4(), ms: etcdRaft.NewMemoryStorage()}
+	g.w = wal.NewBadgerWAL(db, g.id)
+	defer func() { g.w.DeleteGroup() }()
+	for lo := uint64(1); lo <= total; lo += batch {
+		var ents []pb.Entry
+		for i := uint64(0); i < batch; i++ {
+			ents = append(ents, pb.Entry{Index: lo + i, Term: 1 + (lo+i)/5000, Data: []byte(strconv.Itoa(int((lo+i)%97 + 1)))})
+		}
+		hs := pb.HardState{Term: 1 + (lo+batch-1)/5000, Vote: 1, Commit: lo + batch - 1}
+		if err := g.w.Save(hs, ents, pb.Snapshot{}); err != nil {
+			c.Violate(prop, prop+"/save-error", "Save of a legal batch failed: "+err.Error(), c.History())
+			return
+		}
+		g.ms.Append(ents)
+		g.ms.SetHardState(hs)
+	}
+	c.OpLocal("one group: %d entries appended in batches of %d", total, batch)
+	idx := uint64(total - 11)
+	cs := &pb.ConfState{Nodes: []uint64{1}}
+	_, err1 := g.w.CreateSnapshot(idx, cs, []byte("77"))
+	_, err2 := g.ms.CreateSnapshot(idx, cs, []byte("77"))
+	if err2 == nil {
+		err2 = g.ms.Compact(idx)
+	}
+	c.OpLocal("CreateSnapshot(%d): store %s, reference %s", idx, walErrName(err1), walErrName(err2))
+	if walErrName(err1) != walErrName(err2) {
+		c.Violate(prop, prop+"/create-snapshot-result", fmt.Sprintf("CreateSnapshot(%d) over a log of %d entries: badger store %s, reference storage %s", idx, total, walErrName(err1), walErrName(err2)), c.History())
+		return
+	}
+	probe := func(s etcdRaft.Storage) string {
+		var sb strings.Builder
+		sb.WriteString(walSummary(s))
+		for _, i := range []uint64{0, 1, 2, 1000, 2000, 3000, 4000, 4095, 4096, 4097, 5000, 6000, 7000, 8000, 9000, 9999, 10000, 10001, 11000, 12000, idx - 2, idx - 1, idx, idx + 1, total, total + 1} {
+			t, err := s.Term(i)
+			fmt.Fprintf(&sb, " t%d=%d/%s", i, t, walErrName(err))
+		}
+		for _, lo := range []uint64{1, 4097, 10001, idx - 1, idx, idx + 1} {
+			ents, err := s.Entries(lo, lo+3, 1<<40)
+			fmt.Fprintf(&sb, " E%d=", lo)
+			for _, e := range ents {
+				fmt.Fprintf(&sb, "(%d,%d,%d)", e.Index, e.Term, tok(e.Data))
+			}
+			fmt.Fprintf(&sb, "/%s", walErrName(err))
+		}
+		return sb.String()
+	}
+	judge := func(when string) bool {
+		ob, om := probe(g.w), probe(g.ms)
+		c.OpLocal("%s: store     %s", when, ob)
+		c.OpLocal("%s: reference %s", when, om)
+		if ob != om {
+			what := "the badger store and the raft library's MemoryStorage answer differently " + when + " a compaction that removes " + fmt.Sprint(idx-1) + " entries: first difference at " + firstDiff(ob, om)
+			if prop != "C06" {
+				what += " (a replica restarting from this store is handed entries at or below its snapshot again and applies them on top of the restored snapshot: restart-and-replay no longer equals applying every entry once)"
+			}
+			c.Violate(prop, prop+"/big-compaction-differs-from-reference", what, c.History())
+			return false
+		}
+		return true
+	}
+	if !judge("right after") {
+		return
+	}
+	g.w = wal.NewBadgerWAL(db, g.id) // what a restarted node sees: a store object without caches
+	c.OpLocal("a new store object over the same keys (restart)")
+	c.Nontrivial("reopen-after-big-compaction")
+	judge("after a restart following")
 }
